@@ -207,6 +207,76 @@ pub fn cli_unit(ctx: &Ctx, rng: &mut Rng, o: &mut Out) {
       }
     }
   }
+  // token-dropped files: the pattern is a node's own text, the FILE is that text with one unnamed
+  // token (nested at least two levels down) left out — kept only when the shortened text still
+  // parses and the library still finds the pattern in it under `ast` (optional modifiers such as
+  // `static`, `async`, `pub`, `readonly`). The matcher skips the token there, so the literal
+  // prefilter must not demand its text.
+  let tries = if ctx.thorough { 400 } else { 80 };
+  let mut witnesses = 0usize;
+  for src in &sources {
+    let grep = src.lang.ast_grep(&src.text);
+    let root = grep.root();
+    let named: Vec<N> = root.dfs().filter(|n| n.is_named() && n.range().len() > 0 && n.range().len() <= 160 && !n.text().contains('\n')).collect();
+    let ext = src.name.rsplit('.').next().unwrap_or("txt");
+    let mut found_here = 0usize;
+    for _ in 0..tries {
+      if named.is_empty() || found_here >= 3 {
+        break;
+      }
+      let pn = rng.pick(&named);
+      let mut deep: Vec<N> = pn
+        .dfs()
+        .filter(|u| !u.is_named() && u.children().len() == 0 && u.range().len() >= 2 && u.parent().map(|q| q.node_id() != pn.node_id()).unwrap_or(false))
+        .collect();
+      if deep.is_empty() {
+        continue;
+      }
+      deep.sort_by_key(|u| std::cmp::Reverse(u.range().len()));
+      let text = pn.text().to_string();
+      let Ok(pat) = Pattern::try_new(&text, src.lang) else { continue };
+      for u in deep.iter().take(4) {
+        let (ps, us, ue) = (pn.range().start, u.range().start, u.range().end);
+        let file_text = format!("{} {}\n", &text[..us - ps], &text[ue - ps..]);
+        if file_text.contains(&*u.text()) {
+          continue;
+        }
+        let g2 = src.lang.ast_grep(&file_text);
+        if g2.root().dfs().any(|n| n.is_error() || n.get_ts_node().is_missing()) {
+          continue;
+        }
+        let mk_ast = STRICT.iter().find(|x| x.0 == "ast").unwrap().1;
+        if g2.root().find(&pat.clone().with_strictness(mk_ast())).is_none() {
+          continue;
+        }
+        found_here += 1;
+        witnesses += 1;
+        let file = dir.path().join(format!("drop.{ext}"));
+        std::fs::write(&file, &file_text).unwrap();
+        for sname in ["ast", "relaxed", "signature", "smart"] {
+          let mk = STRICT.iter().find(|x| x.0 == sname).unwrap().1;
+          let p = pat.clone().with_strictness(mk());
+          let lib: Vec<(usize, usize)> = g2.root().find_all(&p).map(|nm| (nm.range().start, nm.range().end)).collect();
+          let out = run_cli(&exe, &["run", &format!("--pattern={text}"), "-l", &lang_name(src.lang), "--strictness", sname, "--json=stream", file.to_str().unwrap()], 20);
+          cases += 1;
+          let cli: Option<Vec<(usize, usize)>> = out.ok().map(|stdout| {
+            stdout.lines().filter(|l| !l.trim().is_empty()).filter_map(|l| serde_json::from_str::<Value>(l).ok()).map(|v| (v["range"]["byteOffset"]["start"].as_u64().unwrap_or(0) as usize, v["range"]["byteOffset"]["end"].as_u64().unwrap_or(0) as usize)).collect()
+          });
+          if cli.as_ref() != Some(&lib) {
+            let unnamed_literal = !p.fixed_string().is_empty() && matches!(sname, "cst" | "smart");
+            o.oracle(
+              "cli-run",
+              false,
+              json!({"fp": format!("cli-run differs from library search strictness={sname} unnamed-literal={unnamed_literal}"),
+                     "pattern": text, "lang": lang_name(src.lang), "source": file_text, "dropped_token": u.text(), "cli": cli.map(|c| c.len()), "lib": lib.len()}),
+            );
+          }
+        }
+        break;
+      }
+    }
+  }
+  o.oracle("cli-run-token-dropped", true, json!({"cases": witnesses}));
   // regress corpus: hand-minimised inputs of past findings (inputs, not suppressions)
   let regress: [(SupportLang, &str, &str, &str, &str); 4] = [
     (SupportLang::Php, "php", "<?php\nECHO 1;\n", "echo $A;", "smart"),
